@@ -1846,13 +1846,15 @@ impl Server {
         
         let mut new_members = 0;
         
-        // Process each score-member pair
+        // Validate every score-member pair before the first write: a refused ZADD adds nothing
+        let mut pairs = Vec::with_capacity((parts.len() - 2) / 2);
         for i in (2..parts.len()).step_by(2) {
             let score = match &parts[i] {
                 RespFrame::BulkString(Some(bytes)) => {
                     match String::from_utf8_lossy(bytes).parse::<f64>() {
-                        Ok(n) => n,
-                        Err(_) => return Ok(RespFrame::error("ERR value is not a valid float")),
+                        // "nan" parses as a float but is not a valid score
+                        Ok(n) if !n.is_nan() => n,
+                        _ => return Ok(RespFrame::error("ERR value is not a valid float")),
                     }
                 }
                 _ => return Ok(RespFrame::error("ERR invalid score format")),
@@ -1863,7 +1865,11 @@ impl Server {
                 _ => return Ok(RespFrame::error("ERR invalid member format")),
             };
             
-            // Add to sorted set 
+            pairs.push((score, member));
+        }
+        
+        // Add to sorted set
+        for (score, member) in pairs {
             if self.storage.zadd(db, key.clone(), member, score)? {
                 new_members += 1;
             }
